@@ -110,6 +110,19 @@ impl Farm {
     }
 
     fn build(&self) -> Result<Vec<(String, String)>, String> {
+        match self.build_once() {
+            Err(e) if e.contains("without attributable diagnostics") => {
+                // cargo caches the answers of its `rustc -vV` / target-information probes in
+                // <target>/.rustc_info.json, failures included: a probe that failed once (seen on a heavily
+                // loaded machine) would fail every later build. Drop the cache and try once more.
+                let _ = std::fs::remove_file(self.target.join(".rustc_info.json"));
+                self.build_once()
+            }
+            r => r,
+        }
+    }
+
+    fn build_once(&self) -> Result<Vec<(String, String)>, String> {
         // returns (file, message) for every error diagnostic
         let out = Command::new("cargo")
             .args(["build", "--offline", "--bins", "--message-format=json", "--target-dir"])
